@@ -494,7 +494,9 @@ def relevant(ob, prop, unit_res, unit):
     """is this failed obligation a failure of property `prop`?"""
     if ob.get("label"):
         ps = props_of_label(ob["label"])
-        if ps:
+        # a label naming only properties this unit is not registered for (e.g. a clause reused from another unit's
+        # vocabulary) must not make the failure disappear: it then counts like an unlabelled obligation
+        if ps & set(unit.get("serves", [])):
             return prop in ps
     # unlabelled / pre.* obligations: panic-freedom & helper preconditions -> every property the function serves
     fp = unit_res.get("fn_props", {}).get(ob.get("fn"), [])
